@@ -347,12 +347,40 @@ def _seeds(shape, ids):
         yield {("present", k, t): v for (k, t), v in zip(slots, vals)}
 
 
+def zero_placements():
+    """Order types that place the literal 0 relative to the instants t+1 .. t+4: needed as soon as the code tests an instant
+    for truth or compares it with a literal (``start or ids[0]``)."""
+    ots = [OrderType([["0"], ["t"]], [None], 8), OrderType([["t"], ["0"]], [None], 8)]
+    for k in (1, 2, 3, 4):
+        ots.append(OrderType([["t"], ["0"]], [k], 8))         # t + k == 0
+    return ots
+
+
+def _with_zero(f, rep, *a, **k):
+    """Run f(rep, ot) on the plain order type; if it needs the literal 0, run it for every placement of 0 instead."""
+    from .absint import NeedZero
+    scratch = Report(rep.prop)
+    try:
+        n = f(scratch, OrderType([["t"]], [], 8), *a, **k)
+    except NeedZero:
+        scratch = Report(rep.prop)
+        n = 0
+        for ot in zero_placements():
+            n += f(scratch, ot, *a, **k)
+        scratch.stats["zero_symbol"] = True
+    rep.absorb(scratch)
+    return n
+
+
 def check_dag_and_paths(repo: Repo, rep: Report, tier="quick", which=("dag", "paths")):
+    return _with_zero(lambda r, ot: _check_dag_and_paths(repo, r, tier, which, ot), rep)
+
+
+def _check_dag_and_paths(repo: Repo, rep: Report, tier, which, ot):
     functions = repo.functions(PATHS)
     fn_dag = repo.get(PATHS, "temporal_dag")
     fn_trp = repo.get(PATHS, "time_respecting_paths")
     c_dag, c_trp = repo.construct(PATHS, "temporal_dag"), repo.construct(PATHS, "time_respecting_paths")
-    ot = OrderType([["t"]], [], 8)
     findings = {}
     stats = dict(runs=0, dags=0, paths=0)
 
@@ -627,6 +655,10 @@ def _returned_paths(val):
 
 
 def check_completeness(repo: Repo, rep: Report, tier="quick"):
+    return _with_zero(lambda r, ot: _check_completeness(repo, r, tier, ot), rep)
+
+
+def _check_completeness(repo: Repo, rep: Report, tier, ot):
     """time_respecting_paths(sample=1) against the brute-force enumeration, and all_time_respecting_paths against
     time_respecting_paths, on the symbolic temporal graphs of the C12 check (every presence valuation)."""
     functions = repo.functions(PATHS)
@@ -636,7 +668,6 @@ def check_completeness(repo: Repo, rep: Report, tier="quick"):
     params_all = [a.arg for a in fn_all.args.args]
     if params_all[:1] != ["G"] or "min_t" not in params_all:
         raise AnalysisError("all_time_respecting_paths: unexpected signature %s" % params_all)
-    ot = OrderType([["t"]], [], 8)
     findings = {}
     stats = dict(runs=0, paths=0, oracle=0, aggregated=0)
 
